@@ -28,7 +28,8 @@ echo "== clean tree"
 build_and_test || exit 3
 run_demo; rc=$?; echo "  demo exit on clean tree: $rc"; [ $rc = 0 ] || exit 3
 echo "== with $PATCH"
-git apply "$PATCH" || { echo "  patch does not apply"; exit 3; }
+git apply "$PATCH" 2>/dev/null || git apply --3way "$PATCH" 2>/dev/null || patch -p1 --fuzz=3 -s < "$PATCH" || { echo "  patch does not apply"; exit 3; }
+git diff --stat | tail -n 1
 build_and_test || exit 3
 run_demo; rc=$?; echo "  demo exit on changed tree: $rc"; tail -3 _demo.out | sed 's/^/    /'; [ $rc != 0 ] || exit 3
 rm -rf _build
